@@ -64,6 +64,11 @@ var c08Templates = []c08T{
 	{"thoughtful list chain over a nil element", `o := {bar: m{|x, p: 0, q: 0| [x, p, q]}}; rn := {|i| nil}; ro := {|i| o}`, `[nil, o]~@bar(mark(1), p: mark(2))`, 2, `[nil, [1, 2, 0]]`},
 	{"list chain over an empty receiver", `o := {bar: m{|x, p: 0, q: 0| [x, p, q]}}; rn := {|i| nil}; ro := {|i| o}`, `[]@bar(mark(1), p: mark(2))`, 2, `[]`},
 	{"lonely chain on the nil literal", "", `nil&.S(mark(1))`, 1, `nil`},
+	// equality over containers whose entries disagree in several ways at once (one entry
+	// differs, another entry's == raises): the outcome may not depend on the table layout
+	{"object equality with a raising and a differing entry", `bad := {'==: m{|o| raise ValueErr.new("boom")}}`, `[mark(1), {a: bad, b: 1, c: 2, d: 3} == {a: bad, b: 1, c: 9, d: 8}]`, 1, `[1, false]`},
+	{"map equality with a raising and a differing entry", `bad := {'==: m{|o| raise ValueErr.new("boom")}}`, `[mark(1), %{1: bad, 2: 1, 3: 2, 4: 3} == %{1: bad, 2: 1, 3: 9, 4: 8}]`, 1, `[1, false]`},
+	{"array of objects equality", `bad := {'==: m{|o| raise ValueErr.new("boom")}}`, `[mark(1), [{a: bad, b: 1}] == [{a: bad, b: 2}]]`, 1, `[1, false]`},
 }
 
 func H_C08_order() {
